@@ -19,6 +19,8 @@ func init() {
 }
 
 func runC09(c *eng.Ctx) {
+	c.Rule("R16.7", "K6")
+	ruleNewPartitionCopiesTheServerDefaults(c)
 	c.Rule("R09.5", "K5")
 	ruleRetentionDeletesWhatItWasHanded(c)
 	c.Rule("R09.1", "K2")
